@@ -44,13 +44,14 @@ ScriptsSmall == {
   <<Ver(208)>>
 }
 
+PlanQ == [s \in MCSenders |-> IF s = "s1" THEN <<1>> ELSE <<2>>]
 NoHandshake == { <<M("verack")>>, <<>> }
 
 \* quick tier ------------------------------------------------------------
-\* handlers never start: 2 senders x (2+1) messages race with the failing
+\* handlers never start: 2 senders x 1 message (thorough: 2+1) race with the failing
 \* negotiation and with Disconnect, both directions
 ScenariosQuickA ==
-  { Scn(d, 70016, scr, FALSE, PlanA, <<>>, TRUE) : d \in {"in", "out"}, scr \in NoHandshake }
+  { Scn(d, 70016, scr, FALSE, PlanQ, <<>>, TRUE) : d \in {"in", "out"}, scr \in NoHandshake }
 \* full pipeline: one sender, ping from the remote (pong through the queue),
 \* Disconnect at any point
 ScenariosQuickB ==
